@@ -100,6 +100,29 @@ def get_object_task(nfaults, size, start, io, a, b, f1, f2):
     return None
 
 
+def download_nested(kind, size, thr, chunk, io, rc, iq, dn, p1, k1, b1, j1):
+    """C02.3: ranged download under nested schedules (engine NS): parts complete in any LIFO-expressible order, the IO
+    queue is as small as 1 (submitters block and other request tasks overtake them)"""
+    from harness import nsrun as N
+    from vlib import ns
+    S = ns.Sched(nest=[(p1, k1)] if p1 >= 0 else [], pump=[(b1, j1)] if b1 >= 0 else [])
+    lim = dict(max_request_concurrency=rc, max_io_queue_size=iq, max_in_memory_download_chunks=dn,
+               max_request_queue_size=10)
+    c = N.build('down-' + kind, size, thr, chunk, io, S, limits=lim, subs=1)
+    v = N.go(c, S)
+    if v:
+        return v if v == '~' else 'download: ' + v[5:]
+    if N.finish(c)[0] != 'ok':
+        return 'download: future not successful'
+    r = N.effect_reason(c, 'down-' + kind, size)
+    if r:
+        return 'download: ' + r
+    r = H.progress_reason(c, size, True)
+    if r:
+        return 'download: ' + r
+    return None
+
+
 _PRE_SINGLE = ['0 <= size < thr', '1 <= io', 'size <= 3 * io', '1 <= chunk']
 _PRE_RANGED = ['1 <= thr <= size', '1 <= chunk', 'size <= 3 * chunk', '1 <= io', 'chunk <= 2 * io']
 _P = 'size: int, thr: int, chunk: int, io: int, a: int, b: int, f1: int, f2: int'
@@ -143,6 +166,24 @@ OBLIGATIONS = [
                 'stream faults at symbolic byte positions',
          encodes=['GetObjectTask._main retry loop', 'DeferQueue.request_writes'],
          assumptions=['S1', 'S2', 'identity-content data']),
+    dict(id='C02.3', impl='download_nested',
+         params='size: int, thr: int, chunk: int, io: int, rc: int, iq: int, dn: int, p1: int, k1: int, b1: int, j1: int',
+         cases=[('stream',), ('seekable',)], cases_thorough=[('stream',), ('seekable',), ('path',)],
+         pre=['1 <= thr <= size', '1 <= chunk', '2 * chunk < size <= 3 * chunk', 'chunk <= io', '1 <= rc <= 3',
+              '1 <= iq <= 2', '1 <= dn <= 3', '-1 <= p1 <= 40', '0 <= k1 <= 2', '-1 <= b1 <= 8', '0 <= j1 <= 2'],
+         splits=[['p1 == -1', 'b1 == -1', 'k1 == 0', 'j1 == 0'], ['p1 == -1', 'k1 == 0', 'b1 >= 0', 'rc >= 2', 'dn >= 2'],
+                 ['0 <= p1 <= 20', 'b1 == -1', 'j1 == 0', 'rc == 2', 'dn == 2', 'iq == 1'],
+                 ['20 < p1', 'b1 == -1', 'j1 == 0', 'rc == 2', 'dn == 2', 'iq == 1']],
+         splits_thorough=[['p1 == -1', 'b1 == -1', 'k1 == 0', 'j1 == 0']] +
+                         [[a, b] for a in ('p1 == -1', '0 <= p1 <= 10', '10 < p1 <= 20', '20 < p1 <= 30', '30 < p1')
+                          for b in ('b1 == -1', '0 <= b1 <= 3', '3 < b1')],
+         timeout=(170, 1200),
+         bounds='3 parts x 1 chunk; request concurrency 1..3, io queue 1..2, download window 1..3 symbolic; nested '
+                '(LIFO) schedules: one nested start at a symbolic scheduling point and one non-default pump choice at a '
+                'symbolic blocking step (quick: one of the two)',
+         encodes=['GetObjectTask', 'DownloadNonSeekableOutputManager.queue_file_io_task', 'DeferQueue',
+                  'BoundedExecutor.submit (blocking)', 'IOWriteTask / IOStreamingWriteTask'],
+         assumptions=['S1', 'S2', 'nested (LIFO) schedules only', 'model threading primitives']),
     dict(id='C02.2', impl='get_object_task', params='size: int, start: int, io: int, a: int, b: int, f1: int, f2: int',
          pre=['0 <= size', '0 <= start', '1 <= io', 'size <= 2 * io', '0 <= a <= io and 0 <= b <= io',
               '-1 <= f1 <= size', '-1 <= f2 <= size'],
